@@ -24,7 +24,14 @@ package main
 // panic reached the caller, fatal, hang}.  Oracle: the last three are
 // violations.  "error-runtime" (a Go run-time panic turned into the returned
 // error: the model's Crash outcome) is counted in the histogram; it is not a
-// violation of this property (the call returned an error).
+// violation of this property (the call returned an error).  Every such case is
+// EXPLAINED in the worker: the file is searched for calls of a soyjs.Funcs entry
+// with fewer arguments than its smallest valid count (the Apply functions index
+// args[0] / args[1]; the compiler does not check arities of the JavaScript
+// function table: C14 finding js-write-error-function-arity).  A recovered
+// run-time error in a file without such a call would be a new member of the
+// js-write-error-* family: it is counted as "jswrite:rterror-unexplained",
+// noted and sampled (not a violation of C06).
 
 import (
 	"bufio"
@@ -33,9 +40,11 @@ import (
 	"errors"
 	"fmt"
 	"os"
+	"sort"
 	"strings"
 	"time"
 
+	"github.com/robfig/soy/ast"
 	"github.com/robfig/soy/soyjs"
 	"github.com/robfig/soy/soymsg"
 	"soyverif/internal/hx"
@@ -102,6 +111,38 @@ func (w *c06JsWriter) Write(p []byte) (int, error) {
 	return w.buf.Write(p)
 }
 
+// the calls of a soyjs.Funcs entry with fewer arguments than its smallest valid count, as "name/args<min"
+func c06JsUnderArity(root ast.Node) []string {
+	var found []string
+	var visit func(n ast.Node)
+	visit = func(n ast.Node) {
+		defer func() { _ = recover() }() // a typed nil child
+		if n == nil {
+			return
+		}
+		if fn, ok := n.(*ast.FunctionNode); ok && fn != nil {
+			if f, ok := soyjs.Funcs[fn.Name]; ok && len(f.ValidArgLengths) > 0 {
+				min := f.ValidArgLengths[0]
+				for _, k := range f.ValidArgLengths {
+					if k < min {
+						min = k
+					}
+				}
+				if len(fn.Args) < min {
+					found = append(found, fmt.Sprintf("%s/%d<%d", fn.Name, len(fn.Args), min))
+				}
+			}
+		}
+		if p, ok := n.(ast.ParentNode); ok {
+			for _, c := range p.Children() {
+				visit(c)
+			}
+		}
+	}
+	visit(root)
+	return found
+}
+
 func c06JsWorker(args []string) {
 	c06LimitMemory()
 	var in []c06JsCase
@@ -141,7 +182,11 @@ func c06JsWorker(args []string) {
 					case err == nil:
 						return "ok"
 					case strings.Contains(err.Error(), "runtime error") || strings.Contains(err.Error(), "interface conversion") || strings.Contains(err.Error(), "unreachable"):
-						return "rterror:" + hx.H(firstLine(err.Error()))
+						why := "unexplained"
+						if ua := c06JsUnderArity(f); len(ua) > 0 {
+							why = "function-arity " + strings.Join(ua, " ")
+						}
+						return "rterror:" + hx.H(firstLine(err.Error())) + ":" + hx.H(why)
 					default:
 						return "error:" + hx.H(firstLine(err.Error()))
 					}
@@ -156,6 +201,9 @@ func c06JsWorker(args []string) {
 	fmt.Fprintln(out, "END")
 	out.Flush()
 }
+
+// the distinct explanations seen (reported once per run as a note)
+var c06JsWhy = map[string]bool{}
 
 func c06JsJudge(e *env, c c06JsCase, r c06Res) {
 	key := fmt.Sprint("js:", c.Files, c.ES6, c.Stale, c.Writer)
@@ -179,6 +227,7 @@ func c06JsJudge(e *env, c c06JsCase, r c06Res) {
 		return
 	}
 	cls := "ok"
+	unexplained := false
 	if len(f) > 1 {
 		for _, p := range strings.Split(f[1], ",") {
 			k := p
@@ -192,7 +241,20 @@ func c06JsJudge(e *env, c c06JsCase, r c06Res) {
 				return
 			case "rterror":
 				cls = "error-runtime"
-				e.res.Histogram["jswrite-rterror:"+hx.UnH(p[len(k)+1:])]++
+				msg, why := p[len(k)+1:], "unexplained"
+				if j := strings.IndexByte(msg, ':'); j >= 0 {
+					msg, why = msg[:j], hx.UnH(msg[j+1:])
+				}
+				e.res.Histogram["jswrite-rterror:"+hx.UnH(msg)]++
+				if why == "unexplained" {
+					unexplained = true
+					e.res.Note("jswrite: a recovered run-time error (%s) in a file without an under-arity call of a soyjs.Funcs entry: candidate for the C14 js-write-error-* family; tag %s es6=%v stale=%d writer=%d", hx.UnH(msg), c.Tag, c.ES6, c.Stale, c.Writer)
+				} else {
+					e.res.Histogram["jswrite-rterror-explained:"+strings.Fields(why)[0]]++
+					if len(c06JsWhy) < 12 {
+						c06JsWhy[why] = true
+					}
+				}
 			case "error":
 				if cls == "ok" {
 					cls = "error"
@@ -211,6 +273,10 @@ func c06JsJudge(e *env, c c06JsCase, r c06Res) {
 		st = "stale-bundle"
 	}
 	e.res.Count(key, cls != "ok" || c.Writer != 0 || c.Stale > 0, "jswrite:"+cls+":"+wr+":"+st)
+	if unexplained {
+		e.res.Histogram["jswrite:rterror-unexplained"]++
+		e.res.Sample(c)
+	}
 	if cls != "ok" && len(e.res.Samples) < 40 && e.rng.Chance(3) {
 		e.res.Sample(c)
 	}
@@ -281,6 +347,14 @@ func c06JsWrites(e *env, perCase time.Duration) {
 	}, perCase, nil)
 	for i, c := range cases {
 		c06JsJudge(e, c, res[i])
+	}
+	if len(c06JsWhy) > 0 {
+		var ws []string
+		for w := range c06JsWhy {
+			ws = append(ws, w)
+		}
+		sort.Strings(ws)
+		e.res.Note("jswrite: recovered run-time errors explained by under-arity calls (name/args<min): %s", strings.Join(ws, "; "))
 	}
 }
 
